@@ -45,6 +45,14 @@ def gen_cases(tier, seed):
             # decimal floats (multiples of 0.1): the library may legitimately reject them (exact conservation test); judged only if solved
             base = I.dag_node_base(rng, wt="int") if node else I.dag_edge_base(rng, wt="int")
             base["flow"] = {e: f * 0.1 for e, f in base["flow"].items()}; base["wt"] = "float"
+        if cls.startswith("k") and rng.random() < 0.2:
+            zs = I.add_zero_elements(rng, base, n=1)       # an element with flow exactly 0 must be explained by 0 as well
+            if zs and rng.random() < 0.6 and not cyc:
+                z = zs[0]
+                base["_zero_cons"] = [[z] if node else [list(z)]]
+        if wt == "int" and rng.random() < 0.12:
+            # integral flows given as float objects while int weights are requested
+            base["flow"] = {e: float(f) for e, f in base["flow"].items()}
         kw = {"flow_attr": "flow", "weight_type": wt}
         if node:
             kw["flow_attr_origin"] = "node"
@@ -55,7 +63,11 @@ def gen_cases(tier, seed):
         if oo is not None:
             kw["optimization_options"] = dict(oo)
         drop = []; garbage = {}
-        if rng.random() < 0.3:
+        if base.get("_zero_cons"):
+            kw["subpath_constraints"] = gen.jl(base["_zero_cons"])       # forces a route through the zero-flow element (its weight must then be 0)
+            if cls.startswith("k"):
+                kw["k"] = kw["k"] + 1
+        elif rng.random() < 0.3:
             cons = I.constraints_from_planted(rng, base)
             if cons:
                 kw["subset_constraints" if cyc else "subpath_constraints"] = gen.jl(cons)
